@@ -7,6 +7,9 @@ literals with guards / integer and bit operators / a fixed table of method calls
 Anything outside the subset is a hard error (exit 2): the proof obligation is then *broken*,
 never guessed.
 
+The generators `Tree` and `Local` translate whole `impl` blocks of entry methods (`Tree`,
+`LocalTree`) at statement level into Lean `do` blocks over `Except String` (see `EntryEmit`).
+
 Two typing modes:
   * mode 'bv'  : every integer is a `BitVec 64` (bit twiddling on u64; u32 values are kept
                  zero-extended, which preserves ==, <, and their use as shift amounts);
@@ -617,7 +620,454 @@ def gen_leaf(repo):
     out.append("end LLFree.Gen")
     return "\n".join(out) + "\n"
 
-GENERATORS = {'Consts': gen_consts, 'Fza': gen_fza, 'Leaf': gen_leaf}
+# ---------------------------------------------------------------------------------------------
+# Entry methods: `impl Tree` (trees.rs) and `impl LocalTree` (local.rs).
+# Target: do-blocks in `Except String` (a panic is `throw msg`); `Option<Self>` results stay options.
+# Subset: let / let mut-free rebinding of `self` through setters / if / if-let on Option /
+# match on `Policy` and `Option<TreeOperation>` patterns with guards / early `return None` /
+# assert! / panic! / warn! (ignored) / builder chains of bit-field setters.
+# ---------------------------------------------------------------------------------------------
+
+RENAME = {'class': 'cls', 'default': 'dflt', 'fetch_free': 'fetchFree', 'new_class': 'newClass', 'self': 'self'}
+
+def camel_id(s):
+    parts = s.split('_')
+    return parts[0] + ''.join(p.capitalize() for p in parts[1:])
+
+class EntryEmit:
+    """statement-level translation into Lean `do` notation"""
+    def __init__(self, ty, fields, consts):
+        self.ty = ty              # 'Tree' | 'LTree'
+        self.fields = fields      # rust field name -> (lean field, bits, kind)
+        self.consts = consts      # rust const -> lean term
+        self.tmp = 0
+        self.pre = []             # hoisted statements for the expression being translated
+
+    def name(self, n):
+        return RENAME.get(n, camel_id(n))
+
+    # ---------------- expressions (may append hoisted do-lines to self.pre)
+    def ex(self, e):
+        k = e[0]
+        if k == 'num': return str(e[1])
+        if k == 'path':
+            n = e[1]
+            if n == 'None': return 'none'
+            if n == 'true' or n == 'false': return n
+            if n in self.consts: return self.consts[n]
+            if n.startswith('Policy::'):
+                return '.' + {'Invalid': 'invalid', 'Demote': 'demote', 'Steal': 'steal'}[n.split('::')[1]]
+            if re.fullmatch(r"[a-z_][a-z0-9_]*", n): return self.name(n)
+            raise TranslateError(f"entry: unknown path {n}")
+        if k == 'not': return f"(!{self.ex(e[1])})"
+        if k == 'bin':
+            op, a, b = e[1], self.ex(e[2]), self.ex(e[3])
+            m = {'+': '+', '-': '-', '*': '*', '==': '==', '!=': '!=', '&&': '&&', '||': '||', '<<': '<<<'}
+            if op in ('<', '<=', '>', '>='):
+                return f"(decide ({a} {dict(zip(['<','<=','>','>='],['<','≤','>','≥']))[op]} {b}))"
+            if op not in m: raise TranslateError(f"entry: operator {op}")
+            return f"({a} {m[op]} {b})"
+        if k == 'call':
+            f, args = e[1], e[2]
+            if f == 'Some': return f"(some {self.ex(args[0])})"
+            if f == 'policy': return "(policy " + " ".join(self.ex(a) for a in args) + ")"
+            if f == 'Self::new' and not args: return f"({self.ty}.zero)"
+            if f == 'Self::with':
+                return "(← with' tf " + " ".join(self.ex(a) for a in args) + ")" if self.ty == 'Tree' else \
+                       "(← with' " + " ".join(self.ex(a) for a in args) + ")"
+            if f == 'fetch_free' and not args: return "fetchFree"
+            raise TranslateError(f"entry: call {f}")
+        if k == 'tuple' and len(e[1]) == 1:
+            return self.ex(e[1][0])
+        if k == 'mcall':
+            recv, name, args = e[1], e[2], e[3]
+            # `(policy)(a, b, c)` parses as a call on a parenthesised path
+            if name in self.fields and not args:
+                return f"{self.ex(recv)}.{self.fields[name][0]}"
+            if name.startswith('with_') and name[5:] in self.fields:
+                return f"(← {camel_id(name)} {self.ex(recv)} {self.ex(args[0])})"
+            if name == 'put' and self.ty == 'Tree':
+                return f"(← put tf {self.ex(recv)} " + " ".join(self.ex(a) for a in args) + ")"
+            if name == 'as_tree' and not args:
+                return f"({self.ex(recv)} / tr)"
+            if name == 'is_none_or':
+                c = args[0]
+                if c[0] != 'closure' or len(c[1]) != 1 or c[1][0][0] != 'pvar': raise TranslateError("is_none_or: closure")
+                v = self.name(c[1][0][1])
+                return f"(match {self.ex(recv)} with | none => true | some {v} => {self.ex(c[2])})"
+            if name == 'checked_sub':
+                return f"(if {self.ex(args[0])} ≤ {self.ex(recv)} then some ({self.ex(recv)} - {self.ex(args[0])}) else none)"
+            if name == 'clone' and not args: return self.ex(recv)
+            raise TranslateError(f"entry: method .{name}()")
+        if k == 'try':
+            # `e?` on an Option: early return of `None`
+            t = self.fresh()
+            self.pre.append(('try', t, e[1]))
+            return t
+        if k == 'field':
+            base = self.ex(e[1])
+            return f"{base}.{ {'class': 'cls', 'operation': 'op'}.get(e[2], e[2]) }"
+        if k in ('match', 'if', 'block'):
+            # hoist: a value-producing match/if in argument position
+            t = self.fresh()
+            self.pre.append(('hoist', t, e))
+            return t
+        if k == 'macro':
+            raise TranslateError(f"entry: macro {e[1]}! in expression position")
+        raise TranslateError(f"entry: expression kind {k}")
+
+    def fresh(self):
+        self.tmp += 1
+        return f"t{self.tmp}"
+
+    # ---------------- patterns of the two matched enums as boolean tests on a variable
+    def ptest(self, var, p):
+        if p[0] == 'pwild': return 'true'
+        if p[0] == 'pctor':
+            n, items = p[1], p[2]
+            if n == 'Policy::Match': return f"(isMatch {var})"
+            if n in ('Policy::Demote', 'Policy::Steal', 'Policy::Invalid'):
+                return f"({var} == .{n.split('::')[1].lower()})"
+            if n == 'None': return f"({var} == none)"
+            if n == 'Some' and len(items) == 1 and items[0][0] == 'pctor' and items[0][1].startswith('TreeOperation::'):
+                return f"({var} == some .{items[0][1].split('::')[1].lower()})"
+        raise TranslateError(f"entry: pattern {p}")
+
+    # ---------------- statements -> list of (indent, line)
+    def stmts(self, block, ind, result, assign=None):
+        """`result`: how the value of the block is used: 'ret' (function result), 'unit', or ('assign', var)"""
+        out = []
+        for s in block[1]:
+            out += self.stmt(s, ind)
+        tail = block[2]
+        if tail is not None:
+            out += self.value(tail, ind, result)
+        elif result not in ('unit',) and not (block[1] and block[1][-1][0] == 'return') and not self.diverges(block):
+            if result == 'ret': raise TranslateError("entry: block without value in result position")
+            out.append((ind, "pure ()"))
+        elif result == 'unit' and not out:
+            out.append((ind, "pure ()"))
+        return out
+
+    def diverges(self, block):
+        if not block[1]: return False
+        last = block[1][-1]
+        return last[0] == 'return' or (last[0] == 'expr' and last[1][0] in ('ret',) ) or \
+            (last[0] == 'expr' and last[1][0] == 'macro' and last[1][1] == 'panic')
+
+    def flush(self, ind):
+        out = []
+        while self.pre:
+            h = self.pre.pop(0)
+            if isinstance(h, str):
+                out.append((ind, h))
+            elif h[0] == 'try':
+                _, t, e = h
+                inner = self.with_pre(ind, lambda: f"match {self.ex(e)} with")
+                out.append((ind, f"let mut {t} := default"))
+                out += inner
+                out.append((ind, f"| some v => {t} := v"))
+                out.append((ind, "| none => return none"))
+            else:
+                _, t, e = h
+                out.append((ind, f"let mut {t} := default"))
+                out += self.value(e, ind, ('assign', t))
+        return out
+
+    def with_pre(self, ind, mk):
+        """evaluate `mk()` (which calls self.ex) and prepend whatever it hoisted"""
+        saved, self.pre = self.pre, []
+        line = mk()
+        pre = self.flush(ind)
+        self.pre = saved
+        return pre + ([(ind, line)] if line is not None else [])
+
+    def stmt(self, s, ind):
+        if s[0] == 'let':
+            if s[1][0] != 'pvar': raise TranslateError("entry: let pattern")
+            v = self.name(s[1][1])
+            if s[2][0] in ('match', 'if'):
+                return [(ind, f"let mut {v} := default")] + self.value(s[2], ind, ('assign', v))
+            return self.with_pre(ind, lambda: f"let {v} := {self.ex(s[2])}")
+        if s[0] == 'return':
+            return self.value(s[1], ind, 'ret')
+        if s[0] == 'expr':
+            e = s[1]
+            if e[0] == 'macro':
+                return self.macro(e, ind)
+            if e[0] == 'mcall' and e[2].startswith('set_') and e[2][4:] in self.fields and e[1] == ('path', 'self'):
+                return self.with_pre(ind, lambda: f"self := (← with{e[2][4:].capitalize()} self {self.ex(e[3][0])})")
+            if e[0] in ('if', 'iflet', 'match', 'block'):
+                return self.value(e, ind, 'unit')
+            if e[0] == 'ret':
+                return self.value(e[1], ind, 'ret')
+            raise TranslateError(f"entry: expression statement {e[0]}")
+        raise TranslateError(f"entry: statement {s[0]}")
+
+    def macro(self, e, ind):
+        name, toks = e[1], e[2]
+        if name in ('warn', 'debug', 'info', 'trace'): return []
+        if name == 'assert':
+            # condition = tokens up to the first top-level comma
+            depth = 0; cut = len(toks)
+            for i, (k, v) in enumerate(toks):
+                if k == 'op' and v in '([{': depth += 1
+                elif k == 'op' and v in ')]}': depth -= 1
+                elif k == 'op' and v == ',' and depth == 0: cut = i; break
+            cond = P(toks[:cut] + [('eof', None)]).expr()
+            text = ' '.join(str(v) for _, v in toks[:cut])
+            text = re.sub(r"\s*([().])\s*", r"\1", text)
+            return self.with_pre(ind, lambda: f"if !{self.ex(cond)} then throw \"assertion failed: {text}\"")
+        if name == 'panic':
+            msg = toks[0][1] if toks and toks[0][0] == 'str' else 'explicit panic'
+            return [(ind, f"throw \"{msg}\"")]
+        raise TranslateError(f"entry: macro {name}!")
+
+    def value(self, e, ind, result):
+        """emit `e` in a position where its value goes to `result`"""
+        k = e[0]
+        if k == 'block':
+            return self.stmts(e, ind, result)
+        if k == 'if':
+            out = self.with_pre(ind, lambda: f"if {self.ex(e[1])} then")
+            out += self.stmts(e[2], ind + 1, result)
+            if e[3] is not None:
+                out.append((ind, "else"))
+                out += (self.stmts(e[3], ind + 1, result) if e[3][0] == 'block' else self.value(e[3], ind + 1, result))
+            elif result != 'unit':
+                raise TranslateError("entry: if without else in value position")
+            return out
+        if k == 'iflet':
+            pat, scrut, th, el = e[1], e[2], e[3], e[4]
+            if pat[0] != 'pctor' or pat[1] != 'Some' or pat[2][0][0] != 'pvar': raise TranslateError("entry: if let pattern")
+            v = self.name(pat[2][0][1])
+            out = self.with_pre(ind, lambda: f"match {self.ex(scrut)} with")
+            out.append((ind, f"| some {v} =>"))
+            out += self.stmts(th, ind + 1, result)
+            out.append((ind, "| none =>"))
+            out += (self.stmts(el, ind + 1, result) if el is not None else [(ind + 1, "pure ()")])
+            return out
+        if k == 'match':
+            sv = self.fresh()
+            out = self.with_pre(ind, lambda: f"let {sv} := {self.ex(e[1])}")
+            first = True
+            for pats, guard, body in e[2]:
+                def cond():
+                    c = " || ".join(self.ptest(sv, p) for p in pats)
+                    if len(pats) > 1: c = f"({c})"
+                    if guard is not None: c = f"({c} && {self.ex(guard)})"
+                    return c
+                out += self.with_pre(ind, lambda: ("if " if first else "else if ") + cond() + " then")
+                out += self.value(body, ind + 1, result) or [(ind + 1, "pure ()")]
+                first = False
+            out.append((ind, "else"))
+            out.append((ind + 1, "throw \"non-exhaustive match\""))
+            return out
+        if k == 'ret':
+            return self.value(e[1], ind, 'ret')
+        if k == 'macro':
+            return self.macro(e, ind)
+        # plain expression
+        if result == 'ret':
+            return self.with_pre(ind, lambda: f"return {self.ex(e)}")
+        if result == 'unit':
+            if e == ('tuple', []): return [(ind, "pure ()")]
+            if e[0] == 'mcall' and e[2].startswith('set_'): return self.stmt(('expr', e), ind)
+            raise TranslateError(f"entry: value {e[0]} in statement position")
+        if result[0] == 'assign':
+            return self.with_pre(ind, lambda: f"{result[1]} := {self.ex(e)}")
+        raise TranslateError("entry: result kind")
+
+def parse_fn(src, name, within):
+    params, body = extract_fn(src, name, within=within)
+    toks = tokenize_str(body)
+    ast = P(toks).block()
+    return params, ast
+
+STR = re.compile(r'"((?:[^"\\]|\\.)*)"')
+def tokenize_str(src):
+    """tokenizer of rs2lean plus string literals (kept as ('str', text))"""
+    out = []; pos = 0
+    for m in STR.finditer(src):
+        out += tokenize(src[pos:m.start()])[:-1]
+        out.append(('str', m.group(1)))
+        pos = m.end()
+    out += tokenize(src[pos:])
+    return out
+
+def bitfield_layout(src, struct):
+    m = re.search(r"struct\s+" + struct + r"\s*\{(.*?)\n\}", src, re.S)
+    if not m: raise TranslateError(f"struct {struct} not found")
+    fields = []; bits = None
+    for line in m.group(1).splitlines():
+        line = line.strip()
+        b = re.match(r"#\[bits\((\d+)\)\]", line)
+        if b: bits = int(b.group(1)); continue
+        f = re.match(r"(?:pub\s+)?([a-z_]+)\s*:\s*([A-Za-z0-9_]+)\s*,", line)
+        if f:
+            ty = f.group(2)
+            fields.append((f.group(1), bits if bits is not None else (1 if ty == 'bool' else None), ty))
+            bits = None
+    return fields
+
+# `if let` support: patch the parser's primary for `if let PAT = EXPR { } else { }`
+_old_primary = P.primary
+def _primary(self, nostruct):
+    if self.peek() == ('id', 'if') and self.peek(1) == ('id', 'let'):
+        self.next(); self.next()
+        pat = self.pattern()
+        self.expect('op', '=')
+        scrut = self.expr(nostruct=True)
+        th = self.block()
+        el = None
+        if self.accept('id', 'else'): el = self.block()
+        return ('iflet', pat, scrut, th, el)
+    if self.peek()[0] == 'str':
+        return ('str', self.next()[1])
+    return _old_primary(self, nostruct)
+P.primary = _primary
+# `(policy)(a, b, c)`: a parenthesised callee
+_old_postfix = P.postfix
+def _postfix(self, nostruct):
+    e = self.primary(nostruct)
+    while True:
+        if self.accept('op', '.'):
+            k, v = self.next()
+            if k == 'num':
+                e = ('field', e, str(v)); continue
+            if self.accept('op', '('):
+                e = ('mcall', e, v, self.args())
+            else:
+                e = ('field', e, v)
+        elif self.accept('op', '?'):
+            e = ('try', e)
+        elif self.peek() == ('op', '(') and e[0] == 'path':
+            self.next()
+            e = ('call', e[1], self.args())
+        else:
+            return e
+P.postfix = _postfix
+def _block(self):
+    self.expect('op', '{')
+    stmts = []
+    while True:
+        if self.accept('op', '}'):
+            return ('block', stmts, None)
+        if self.peek() == ('id', 'let'):
+            self.next()
+            mut = self.accept('id', 'mut')
+            name = self.pattern()
+            if self.accept('op', ':'):
+                self.type_()
+            self.expect('op', '=')
+            e = self.expr()
+            self.expect('op', ';')
+            stmts.append(('let', name, e, mut))
+            continue
+        if self.peek() == ('id', 'return'):
+            self.next()
+            e = self.expr()
+            self.accept('op', ';')
+            stmts.append(('return', e))
+            continue
+        e = self.expr()
+        if self.accept('op', ';'):
+            stmts.append(('expr', e)); continue
+        if self.accept('op', '}'):
+            return ('block', stmts, e)
+        if e[0] in ('if', 'iflet', 'match', 'block'):
+            stmts.append(('expr', e)); continue
+        raise TranslateError(f"unexpected token after expression: {self.peek()}")
+P.block = _block
+
+def emit_fn(em, lean_name, sig, ret, ast, mut_self):
+    em.tmp = 0
+    lines = [f"def {lean_name} {sig} : R {ret} := do"]
+    if mut_self: lines.append("  let mut self := self")
+    for ind, l in em.stmts(ast, 1, 'ret'):
+        lines.append("  " * ind + l)
+    return "\n".join(lines) + "\n"
+
+def gen_tree(repo):
+    src = read(repo + '/core/src/trees.rs')
+    lay = bitfield_layout(src, 'Tree')
+    if [f[0] for f in lay] != ['free', 'reserved', 'class']: raise TranslateError(f"Tree fields {lay}")
+    out = ["/- GENERATED by tools/rs2lean.py from core/src/trees.rs (`impl Tree`) — do not edit. -/",
+           "import LLFreeV.Model.Prog", "namespace LLFree.Gen.T", "open LLFree", "",
+           "/-- a panic of the source is `throw msg` -/", "abbrev R := Except String", "",
+           "def isMatch : Policy → Bool", "  | .match _ => true", "  | _ => false", "",
+           "def Tree.zero : Tree := ⟨0, false, 0⟩", ""]
+    fields = {}
+    for name, bits, ty in lay:
+        lean = {'class': 'cls'}.get(name, name)
+        fields[name] = (lean, bits, ty)
+        setter = 'with' + name.capitalize()
+        if ty == 'bool':
+            out.append(f"def {setter} (self : Tree) (v : Bool) : R Tree := pure {{ self with {lean} := v }}")
+        else:
+            out.append(f"/-- bit-field setter ({bits} bits): the generated setter asserts the range -/")
+            out.append(f"def {setter} (self : Tree) (v : Nat) : R Tree :=\n  if v < 2 ^ {bits} then pure {{ self with {lean} := v }} else throw \"value out of bounds\"")
+    out.append("")
+    em = EntryEmit('Tree', fields, {'TREE_FRAMES': 'tf'})
+    within = 'impl Tree {'
+    def fn(name, lean_name, sig, ret, mut_self=False):
+        params, ast = parse_fn(src, name, within)
+        out.append(f"/-- `Tree::{name}({' '.join(params.split())})` -/")
+        out.append(emit_fn(em, lean_name, sig, ret, ast, mut_self))
+    fn('with', "with'", "(tf free : Nat) (reserved : Bool) (cls : Nat)", "Tree")
+    fn('put', "put", "(tf : Nat) (self : Tree) (free : Nat) (policy : PolicyFn) (dflt : Nat)", "Tree", True)
+    fn('steal', "steal", "(self : Tree) (cls free : Nat) (policy : PolicyFn)", "(Option Tree)")
+    fn('reserve_or_steal', "reserveOrSteal", "(tf : Nat) (self : Tree) (free : Nat) (policy : PolicyFn) (cls : Nat)", "(Option Tree)")
+    fn('unreserve_add', "unreserveAdd", "(tf : Nat) (self : Tree) (free cls : Nat) (policy : PolicyFn) (dflt : Nat)", "(Option Tree)")
+    fn('sync_steal', "syncSteal", "(self : Tree) (min : Nat)", "(Option Tree)")
+    lib = read(repo + '/core/src/lib.rs')
+    m = re.search(r"pub enum TreeOperation\s*\{(.*?)\}", lib, re.S)
+    if not m: raise TranslateError("enum TreeOperation not found")
+    variants = re.findall(r"^\s*([A-Z][A-Za-z]*)\s*,", m.group(1), re.M)
+    if sorted(variants) != ['Offline', 'Online']: raise TranslateError(f"TreeOperation variants {variants}")
+    m = re.search(r"pub struct TreeChange\s*\{(.*?)\}", lib, re.S)
+    tc = re.findall(r"pub\s+([a-z_]+)\s*:\s*([A-Za-z<>]+)\s*,", m.group(1)) if m else []
+    if tc != [('class', 'Option<Class>'), ('operation', 'Option<TreeOperation>')]: raise TranslateError(f"TreeChange fields {tc}")
+    out.append("/-- `TreeOperation` -/\ninductive Op where\n" + "\n".join(f"  | {v.lower()}" for v in variants) + "\nderiving Repr, DecidableEq\n")
+    out.append("/-- `TreeChange` -/\nstructure Change where\n  cls : Option Nat\n  op : Option Op\n")
+    fn('change', "change", "(self : Tree) (cls : Option Nat) (free : Nat) (change : Change) (fetchFree : Nat)", "(Option Tree)", True)
+    out.append("end LLFree.Gen.T")
+    return "\n".join(out) + "\n"
+
+def gen_local(repo):
+    src = read(repo + '/core/src/local.rs')
+    lay = bitfield_layout(src, 'LocalTree')
+    if [f[0] for f in lay] != ['row', 'free', 'present']: raise TranslateError(f"LocalTree fields {lay}")
+    out = ["/- GENERATED by tools/rs2lean.py from core/src/local.rs (`impl LocalTree`) — do not edit. -/",
+           "import LLFreeV.Model.Prog", "namespace LLFree.Gen.L", "open LLFree", "",
+           "/-- a panic of the source is `throw msg` -/", "abbrev R := Except String", "",
+           "def LTree.zero : LTree := ⟨0, 0, false⟩", ""]
+    fields = {}
+    for name, bits, ty in lay:
+        fields[name] = (name, bits, ty)
+        setter = 'with' + name.capitalize()
+        if ty == 'bool':
+            out.append(f"def {setter} (self : LTree) (v : Bool) : R LTree := pure {{ self with {name} := v }}")
+        else:
+            out.append(f"/-- bit-field setter ({bits} bits): the generated setter asserts the range -/")
+            out.append(f"def {setter} (self : LTree) (v : Nat) : R LTree :=\n  if v < 2 ^ {bits} then pure {{ self with {name} := v }} else throw \"value out of bounds\"")
+    out.append("")
+    em = EntryEmit('LTree', fields, {'TREE_FRAMES': 'tf'})
+    within = 'impl LocalTree {'
+    def fn(name, lean_name, sig, ret):
+        params, ast = parse_fn(src, name, within)
+        out.append(f"/-- `LocalTree::{name}({' '.join(params.split())})`; `tr` = rows per tree (`RowId::as_tree`) -/")
+        out.append(emit_fn(em, lean_name, sig, ret, ast, False))
+    fn('with', "with'", "(row free : Nat)", "LTree")
+    fn('none', "none'", "", "LTree")
+    fn('get', "get", "(tr : Nat) (self : LTree) (tree : Option Nat) (free : Nat)", "(Option LTree)")
+    fn('put', "put", "(tr tf : Nat) (self : LTree) (tree free : Nat)", "(Option LTree)")
+    fn('set_start', "setStart", "(tr : Nat) (self : LTree) (row : Nat)", "(Option LTree)")
+    out.append("end LLFree.Gen.L")
+    return "\n".join(out) + "\n"
+
+
+GENERATORS = {'Consts': gen_consts, 'Fza': gen_fza, 'Leaf': gen_leaf, 'Tree': gen_tree, 'Local': gen_local}
 
 def write_if_changed(path, txt):
     if os.path.exists(path) and read(path) == txt: return False
